@@ -7,6 +7,7 @@ import (
 	"time"
 
 	"tunnox-core/internal/core/storage"
+	"tunnox-core/internal/core/storage/hybrid"
 	"tunnox-core/internal/core/storage/memory"
 	"tunnox-core/internal/packet"
 )
@@ -39,14 +40,24 @@ func Harness_C08_lookup() {
 	now := int64(1) << 60
 	verif_ClockSet(now)
 	mem := memory.New(ctx)
-	var st storage.Storage = mem
-	jsonBackend := verif_Bool()
-	if jsonBackend {
-		st = &c08JSONStore{mem}
+	// backend: 0 = in-memory, 1 = Redis-like (JSON text values), 2 = tiered: every node has its
+	// own hybrid.Storage (node-local cache) over one shared Redis-like cache, as in production
+	backend := verif_Choose(3)
+	jsonBackend := backend != 0
+	sts := []storage.Storage{mem, mem}
+	switch backend {
+	case 1:
+		sts = []storage.Storage{&c08JSONStore{mem}, &c08JSONStore{mem}}
+	case 2:
+		shared := &c08JSONStore{mem}
+		sts = []storage.Storage{
+			hybrid.NewWithSharedCache(ctx, memory.New(ctx), shared, nil, hybrid.DefaultConfig()),
+			hybrid.NewWithSharedCache(ctx, memory.New(ctx), shared, nil, hybrid.DefaultConfig()),
+		}
 	}
 	const client = int64(1001)
 	auth := &vsAuth{ok: map[int64]bool{client: true}}
-	nodes := []*SessionManager{vsNewNode(ctx, "node-A", st, auth, nil), vsNewNode(ctx, "node-B", st, auth, nil)}
+	nodes := []*SessionManager{vsNewNode(ctx, "node-A", sts[0], auth, nil), vsNewNode(ctx, "node-B", sts[1], auth, nil)}
 	var conns []*c08Conn
 	latest := -1 // index of the connection of the most recent successful handshake
 	n := verif_Bound("events")
